@@ -216,3 +216,26 @@ func valueSources(v ssa.Value, depth int) []ssa.Value {
 	rec(v, depth)
 	return out
 }
+
+// deepFns: f and the unexported helpers of its package that it calls (two levels): the code of f
+// as it reads with those helpers inlined back. Opt-in for rules that scan an anchor function.
+func (c *Ctx) deepFns(f *ssa.Function) []*ssa.Function {
+	if f == nil {
+		return nil
+	}
+	return c.helperClosure(f, 2, func(h *ssa.Function) bool { return plainHelper(h) == nil })
+}
+
+func (c *Ctx) allInstrsDeep(f *ssa.Function, fn func(b *ssa.BasicBlock, i ssa.Instruction)) {
+	for _, g := range c.deepFns(f) {
+		allInstrs(g, fn)
+	}
+}
+
+func (c *Ctx) callsToDeep(f *ssa.Function, q string) []*ssa.Call {
+	var out []*ssa.Call
+	for _, g := range c.deepFns(f) {
+		out = append(out, callsTo(g, q)...)
+	}
+	return out
+}
